@@ -7,7 +7,8 @@
 #          <commit>-R    only that fix reversed on today's file (git show <commit> | patch -R); <c1>+<c2>-R: both, in this order
 #          Cxx-mk        /verif/seeded/Cxx-mk/patch.diff
 set -u
-VERIF=/verif
+VERIF=${VERIF:-/verif}          # the framework copy under test (default: /verif)
+SEEDED=${SEEDED:-/verif/seeded}   # where the seeded changes live
 REPO=/repo
 WORK=${ORDVAL_DIR:-/tmp/ordval}
 BIN=$WORK/orderfacts
@@ -15,7 +16,8 @@ PROJ=$WORK/lean
 MODS="SST.Props.C02_Order SST.Props.C10_Order SST.Props.C13_Order SST.Props.C17_Order SST.Props.C07_Order"
 
 mkdir -p "$WORK" "$PROJ/SST/Generated" "$PROJ/SST/Model" "$PROJ/SST/Spec" "$PROJ/SST/Props"
-(cd $VERIF/tools/orderfacts && timeout 120 go build -o "$BIN" .) || { echo "orderfacts does not build"; exit 2; }
+export GOFLAGS=-mod=mod GOPROXY=off
+(cd $VERIF/tools/orderfacts && timeout 300 go build -o "$BIN" .) || { echo "orderfacts does not build"; exit 2; }
 cp $VERIF/lean/lean-toolchain $VERIF/lean/lake-manifest.json "$PROJ/"
 printf 'name = "SST"\nversion = "0.1.0"\ndefaultTargets = ["SST"]\n\n[[lean_lib]]\nname = "SST"\n' > "$PROJ/lakefile.toml"
 cp $VERIF/lean/SST/Model/{Bytes,DB,FS}.lean "$PROJ/SST/Model/"
@@ -32,10 +34,10 @@ run_one() {
   case $m in
     baseline) ;;
     C??-m?)
-      for f in $(grep '^+++ b/' $VERIF/seeded/$m/patch.diff | sed 's#^+++ b/##'); do
+      for f in $(grep '^+++ b/' $SEEDED/$m/patch.diff | sed 's#^+++ b/##'); do
         mkdir -p "$root/$(dirname $f)"; cp "$REPO/$f" "$root/$f"
       done
-      (cd "$root" && timeout 30 patch -s -p1 < $VERIF/seeded/$m/patch.diff) || { echo "$m: patch does not apply"; return; } ;;
+      (cd "$root" && timeout 30 patch -s -p1 < $SEEDED/$m/patch.diff) || { echo "$m: patch does not apply"; return; } ;;
     *-R)
       # <c1>+<c2>-R: reverse c1, then c2 (when a later fix touched the same lines)
       local cs=${m%-R}
@@ -51,8 +53,8 @@ run_one() {
       done ;;
   esac
   local strict="ok"
-  timeout 30 "$BIN" --root "$root" $REPO "$WORK/strict_out" >/dev/null 2>"$WORK/strict_err" || strict="exit $? ($(head -c 300 $WORK/strict_err | tr '\n' ' '))"
-  timeout 30 "$BIN" --root "$root" --allow-missing $REPO "$PROJ/SST/Generated" 2>/dev/null
+  timeout 120 "$BIN" --root "$root" $REPO "$WORK/strict_out" >/dev/null 2>"$WORK/strict_err" || strict="exit $? ($(head -c 300 $WORK/strict_err | tr '\n' ' '))"
+  timeout 120 "$BIN" --root "$root" --allow-missing $REPO "$PROJ/SST/Generated" 2>/dev/null
   (cd "$PROJ" && timeout 900 lake build $MODS 2>&1) > "$WORK/build_$m.log"
   local failed=""
   while IFS= read -r line; do
@@ -67,5 +69,5 @@ run_one() {
 
 # the error-path repairs of round 4 (3b4867f table writer Open cleanup, a9ebc7d WAL writer, a7ed007 flag writer, bfb8835 compaction
 # inputs, edfc7e7 DB.Open, 6dd9211 done signal of the goroutines): each reversed on today's files
-ALL="baseline 036cc7d 036cc7d-R c63f907 c63f907-R 86e2d95 86e2d95-R dd6bb0c dd6bb0c-R d2bdde6 d2bdde6-R 2cc0c75 d2bdde6+2cc0c75-R 3b4867f-R a9ebc7d-R a7ed007-R bfb8835-R edfc7e7-R 6dd9211-R C10-m1 C13-m1 C13-m2 C02-m2 C07-m2 C17-m1"
+ALL="baseline 036cc7d 036cc7d-R c63f907 c63f907-R 86e2d95 86e2d95-R dd6bb0c dd6bb0c-R d2bdde6 d2bdde6-R 2cc0c75 d2bdde6+2cc0c75-R 3b4867f-R a9ebc7d-R a7ed007-R bfb8835-R edfc7e7-R 6dd9211-R C10-m1 C13-m1 C13-m2 C02-m2 C07-m2 C07-m6 C17-m1"
 for m in ${@:-$ALL}; do run_one $m; done
